@@ -589,3 +589,149 @@ def m_wrapping_add(eng, callee, args):
 @model(r"^<GTarget as Clone>::clone$|^<D as Clone>::clone$|^<Q as Clone>::clone$", "user type Clone")
 def m_user_clone(eng, callee, args):
     return clone_val(deref(args[0]))
+
+
+# ------------------------------------------------------------------------------------------------
+# environment: clock, channels, threads, progress bars
+# ------------------------------------------------------------------------------------------------
+@model(r"^Instant::now$|^std::time::Instant::now$", "Instant::now: arbitrary non-decreasing instants (fresh solver variable >= the previous reading)")
+def m_instant_now(eng, callee, args):
+    ctx = eng.ctx
+    t = ctx.fresh_real("instant")
+    prev = getattr(ctx, "last_instant", None)
+    if prev is not None:
+        ctx.assume(t.z() >= prev.z())
+    ctx.last_instant = t
+    return t
+
+
+@model(r"^Duration::from_secs$|^std::time::Duration::from_secs$", "Duration::from_secs(n) = n seconds")
+def m_dur_secs(eng, callee, args):
+    return Num(args[0])
+
+
+@model(r"^Duration::from_millis$|^std::time::Duration::from_millis$", "Duration::from_millis")
+def m_dur_ms(eng, callee, args):
+    return Num(args[0]) / Num(1000)
+
+
+@model(r"^<Instant as Add<Duration>>::add$", "Instant + Duration")
+def m_instant_add(eng, callee, args):
+    return Num.of(deref(args[0])) + Num.of(deref(args[1]))
+
+
+@model(r"^<Instant as PartialOrd>::(ge|gt|le|lt)$", "Instant comparison")
+def m_instant_cmp(eng, callee, args):
+    a, b = Num.of(deref(args[0])), Num.of(deref(args[1]))
+    return {"ge": a.ge, "gt": a.gt, "le": a.le, "lt": a.lt}[callee.rsplit("::", 1)[1]](b)
+
+
+class Channel:
+    def __init__(self):
+        self.sent = []
+        self.results = []
+
+
+@model(r"^std::sync::mpsc::channel::<", "mpsc::channel(): (Sender, Receiver) over one queue")
+def m_channel(eng, callee, args):
+    ch = Channel()
+    return Tuple([Struct("Sender", ["ch"], [ch]), Struct("Receiver", ["ch"], [ch])])
+
+
+@model(r"^std::sync::mpsc::Sender::<.*>::send$", "Sender::send: Ok, or Err when the receiver is gone -- either, at every call (solver's choice)")
+def m_send(eng, callee, args):
+    tx = deref(args[0])
+    ch = tx.fields[0] if isinstance(tx, Struct) else tx
+    ok = eng.ctx.branch(eng.ctx.fresh_bool("send_ok"), "send")
+    ch.sent.append(args[1])
+    ch.results.append(ok)
+    return Ok(Tuple([])) if ok else Err(Struct("SendError", ["0"], [args[1]]))
+
+
+@model(r"^must_use::<", "must_use")
+def m_must_use(eng, callee, args):
+    return args[0]
+
+
+@model(r"^std::thread::spawn::<", "thread::spawn: the closure is NOT executed here (the reporter thread is summarised); a handle is returned")
+def m_thread_spawn(eng, callee, args):
+    return Struct("JoinHandle", ["closure"], [args[0]])
+
+
+@model(r"^JoinHandle::<.*>::join$|^std::thread::JoinHandle::<.*>::join$", "JoinHandle::join: Ok(())")
+def m_join(eng, callee, args):
+    return Ok(Tuple([]))
+
+
+@model(r"^std::thread::scope::<", "thread::scope(f) = f(&scope); spawned closures run to completion before scope returns")
+def m_thread_scope(eng, callee, args):
+    return eng.call_closure(args[0], [Ref.to(Struct("Scope", [], []))])
+
+
+@model(r"^std::thread::Scope::<.*>::spawn::<", "Scope::spawn: the closure runs (sequentially, in spawn order -- chains share nothing)")
+def m_scope_spawn(eng, callee, args):
+    res = eng.call_closure(args[1], [])
+    return Struct("ScopedJoinHandle", ["result"], [res])
+
+
+@model(r"^ScopedJoinHandle::<.*>::join$|^std::thread::ScopedJoinHandle::<.*>::join$", "ScopedJoinHandle::join: Ok(result)")
+def m_scoped_join(eng, callee, args):
+    return Ok(deref(args[0]).fields[0])
+
+
+@model(r"^ProgressBar::|^ProgressStyle::|^MultiProgress::|^indicatif::", "indicatif: opaque no-ops (terminal output is not the subject)")
+def m_indicatif(eng, callee, args):
+    if callee.endswith("::template"):
+        return Ok(Opaque("ProgressStyle"))
+    return Opaque("indicatif")
+
+
+@model(r" as QuantileExt<.*>>::(max|min|max_skipnan|min_skipnan)$", "ndarray-stats max/min: Ok(reference to an extreme element) (R-mode)")
+def m_quantile_max(eng, callee, args):
+    from models_nd import nd
+    a = nd(args[0]).a
+    if a.size == 0:
+        return Err(Opaque("EmptyInput"))
+    best = a.reshape(-1)[0]
+    for x in a.reshape(-1)[1:]:
+        best = ite(Num.of(x).gt(Num.of(best)) if "max" in callee else Num.of(x).lt(Num.of(best)), x, best)
+    return Ok(Ref.to(best)) if not callee.endswith("skipnan") else Ref.to(best)
+
+
+@model(r"^<f32 as PartialOrd>::partial_cmp$|^<f64 as PartialOrd>::partial_cmp$|^<T as PartialOrd>::partial_cmp$", "float partial_cmp: None iff an operand is NaN")
+def m_partial_cmp(eng, callee, args):
+    a, b = Num.of(deref(args[0])), Num.of(deref(args[1]))
+    nan = mirsym_nan_or(a.nan, b.nan)
+    ctx = eng.ctx
+    if nan is not None and ctx.branch(nan, "partial_cmp NaN"):
+        return NONE()
+    if ctx.branch(Num(a.v).lt(Num(b.v)), "partial_cmp <"):
+        return Some(Enum("Ordering", "Less", []))
+    if ctx.branch(Num(a.v).eq(Num(b.v)), "partial_cmp =="):
+        return Some(Enum("Ordering", "Equal", []))
+    return Some(Enum("Ordering", "Greater", []))
+
+
+@model(r"^(f32|f64)::total_cmp$|^std::(f32|f64)::<impl (f32|f64)>::total_cmp$|^core::(f32|f64)::<impl (f32|f64)>::total_cmp$",
+       "total_cmp: IEEE totalOrder restricted to the N-mode domain (NaN above every number; -0/+0 not distinguished)")
+def m_total_cmp(eng, callee, args):
+    a, b = Num.of(deref(args[0])), Num.of(deref(args[1]))
+    ctx = eng.ctx
+    an = ctx.branch(a.is_nan(), "a NaN") if a.nan is not None else False
+    bn = ctx.branch(b.is_nan(), "b NaN") if b.nan is not None else False
+    if an and bn:
+        return Enum("Ordering", "Equal", [])
+    if an:
+        return Enum("Ordering", "Greater", [])
+    if bn:
+        return Enum("Ordering", "Less", [])
+    if ctx.branch(Num(a.v).lt(Num(b.v)), "total_cmp <"):
+        return Enum("Ordering", "Less", [])
+    if ctx.branch(Num(a.v).eq(Num(b.v)), "total_cmp =="):
+        return Enum("Ordering", "Equal", [])
+    return Enum("Ordering", "Greater", [])
+
+
+def mirsym_nan_or(a, b):
+    import mirsym
+    return mirsym.nan_or(a, b)
